@@ -10,7 +10,7 @@ pub fn prop() -> Prop {
     Prop {
         id: "C02",
         level: "model_checking",
-        rule: "values: every string of length <=2 (thorough <=3, 4 over a 16-character core and 5 over an 8-character core) over a 49-character alphabet (all C0 controls, DEL, quote, backslash, slash, U+0080, U+00FF, U+2028/9, U+D7FF, U+E000, U+FFFD, U+FFFF, U+10000, U+1F603, U+10FFFF, 'a') as a value, as a member name and inside an array; 26 boundary numbers; 17 computed numbers (results of arithmetic incl. overflow); ~90 containers of depth <=3 with 0/1/2 members and 18 array/object chains of depth 8..64; strings of 15..4097 characters with a special character first or last (as value, member name, element) and arrays/objects of 15..1025 members; x 3 styles x utf8 on/off x 4 row separators; each case = 2 runs (output fed back); non-trivial = a character outside ' '..'~', a number that is not a small integer, or a non-empty container; distinct by construction; 4 inputs x 10 selection sets (rows built by jawk from selections, incl. selections that share a name, where every printed object must still have distinct member names)",
+        rule: "values: every string of length <=2 (thorough <=3, 4 over a 16-character core and 5 over an 8-character core) over a 49-character alphabet (all C0 controls, DEL, quote, backslash, slash, U+0080, U+00FF, U+2028/9, U+D7FF, U+E000, U+FFFD, U+FFFF, U+10000, U+1F603, U+10FFFF, 'a') as a value, as a member name and inside an array; 26 boundary numbers; 25 computed numbers (results of arithmetic incl. overflow, negative zero, integral floats, exponent spellings); ~90 containers of depth <=3 with 0/1/2 members and 18 array/object chains of depth 8..64; strings of 15..4097 characters with a special character first or last (as value, member name, element) and arrays/objects of 15..1025 members; x 3 styles x utf8 on/off x 4 row separators; each case = 2 runs (output fed back); non-trivial = a character outside ' '..'~', a number that is not a small integer, or a non-empty container; distinct by construction; 4 inputs x 10 selection sets (rows built by jawk from selections, incl. selections that share a name, where every printed object must still have distinct member names)",
         explanation: "stdout is framed by the row separator and each row is read by the independent strict RFC 8259 reader and compared with the reference value; style relations (consise has no insignificant whitespace, one-line no line break, pretty = one element/member per line with indentation c*depth, all three equal after deleting insignificant whitespace) and the byte-for-byte fixpoint of a second run are checked on every case",
         assumptions: COMMON_ASSUMPTIONS.to_vec(),
         guards: vec!["separator-of-minus-signs-touching-the-next-row", "selections-sharing-a-name", "size-thresholds", "control-character", "astral-character", "pretty-nested", "computed-non-finite", "separator-without-newline", "utf8-on"],
@@ -28,7 +28,7 @@ pub fn alphabet() -> Vec<char> {
 }
 
 const STYLES: [&str; 3] = ["one-line", "consise", "pretty"];
-const SEPS: [&str; 5] = ["\n", "---\n", "\r\n", " ", "---"];
+const SEPS: [&str; 7] = ["\n", "---\n", "\r\n", " ", "---", "\\", "\\n|\t"];
 
 /// delete whitespace outside strings
 fn strip_ws(s: &[u8]) -> Vec<u8> {
@@ -474,7 +474,7 @@ fn run(ctx: &mut Ctx) {
         check_item(ctx, &it);
     }
     // ---- computed numbers (results of arithmetic, incl. overflow to non-finite)
-    let computed: [(&str, &str); 17] = [
+    let computed: [(&str, &str); 25] = [
         ("1e200", "(* . .)"),
         ("-1e200", "(* . . .)"),
         ("1e308", "(+ . .)"),
@@ -492,6 +492,15 @@ fn run(ctx: &mut Ctx) {
         ("5e-324", "(/ . 2)"),
         ("-0.0", "(* . 1)"),
         ("1.7976931348623157e308", "(* . 1.0000001)"),
+        // results that are a negative zero, an integral float, or print with an exponent
+        ("0", "(* -1 .)"),
+        ("0", "(/ . -5)"),
+        ("5e-324", "(* . -0.1)"),
+        ("0", "(- (* -1 .) 0)"),
+        ("-0.5", "(round .)"),
+        ("-0.2", "(ceil .)"),
+        ("1e21", "(+ . 1)"),
+        ("1e-7", "(/ . 10)"),
     ];
     for (inp, e) in computed {
         if !ctx.mine() {
